@@ -2,27 +2,27 @@ package rules
 
 func init() {
 	reg("C07", &PropSpec{
-		Rules: []Rule{r("T1", RuleT1), r("H1", RuleH1), r("MP1", RuleMP1), r("R1", RuleR1), r("K1", RuleK1)},
+		Rules:       []Rule{r("T1", RuleT1), r("H1", RuleH1), r("MP1", RuleMP1), r("R1", RuleR1), r("K1", RuleK1)},
 		Explanation: "Decided: expansion is guarded against every cycle of macros, direct or mutual - the expansion SCC contains an on-stack-set guard (T1); a second macro with one name is refused before the insert and the on-stack mark precedes the recursion (H1); a pasted macro is used only where the table lookup found it (MP1); pasted children are nested by the same resolver as written ones (R1); MACRO and PASTE are consumed by the expansion stage and never reach the catalog builder, so an unpasted macro contributes nothing (K1). Not decided: equality of the catalog with the inlined document; a cycle among macros none of which is pasted is not rejected (it is never expanded).",
 		Trusted:     trustedCommon,
 	})
 	reg("C12", &PropSpec{
-		Rules: []Rule{r("H1", RuleH1), r("IM1", RuleIM1), r("E3ii", RuleE3ii), r("N2", RuleN2), r("T1", RuleT1), r("RV1", RuleRV1)},
+		Rules:       []Rule{r("H1", RuleH1), r("IM1", RuleIM1), r("E3ii", RuleE3ii), r("N2", RuleN2), r("T1", RuleT1), r("RV1", RuleRV1), r("PA1", RulePA1)},
 		Explanation: "Decided: an inherited property is inserted only when the object has no property with that key - an own property is an override error, an already inherited one is skipped (H1 on Unshift: each at most once); inheriting never stores through a pointer into the base type, nodes are inserted as value copies (IM1: bases left as declared); the per-run 'already expanded' memo must not carry a caller-owned accumulator (E3ii: known finding F13); ContentJSight only under a JSight notation test (N2); the allOf recursion is guarded by a visited set (T1); every loop over an interaction's responses visits all of them, so allOf in a later response is expanded whatever precedes it (RV1). Not decided: order of inherited properties, transitive completeness, shared grandchildren.",
 		Trusted:     trustedCommon,
 	})
 	reg("C13", &PropSpec{
-		Rules: []Rule{r("H1", RuleH1), r("PS1", RulePS1), r("N2", RuleN2), r("D1", RuleD1), r("CK1", RuleCK1)},
+		Rules:       []Rule{r("H1", RuleH1), r("PS1", RulePS1), r("N2", RuleN2), r("D1", RuleD1), r("CK1", RuleCK1), r("LC1", RuleLC1("core/collect_core_path.go", "core/path_parameter.go", "core/path_variables.go", "core/compile_catalog.go", "core/raw_path_variables.go", "directive/path.go"))},
 		Explanation: "Decided: a parameter declared twice for one prefix is refused before the insert into the project-wide prefix map (H1); Path schemas are read only after all of them passed the flat-object check, and leftover properties are an error for every Path directive (PS1); a Path body that resolves to a non-JSight type is a diagnostic (N2); the unused-names message is deterministic (D1); every path-registering handler runs the similar-paths check (CK1). Not decided: the splitting of a path into (prefix, name) pairs and the binding itself (string logic).",
 		Trusted:     trustedCommon,
 	})
 	reg("C15", &PropSpec{
-		Rules: []Rule{r("DN1", RuleDN1), r("AN1", RuleAN1), r("K2p", RuleK2p), r("K1", RuleK1)},
+		Rules:       []Rule{r("DN1", RuleDN1), r("DN2", RuleDN2), r("AN1", RuleAN1), r("K2p", RuleK2p), r("K1", RuleK1)},
 		Explanation: "Decided: the description setters are reached only from the one Description handler, after the normaliser succeeded and its result was found non-empty, and they store exactly string(result) for all four hosts (DN1); every store into Directive.Annotation and SchemaContentJSight.Note takes the result of the one annotation normaliser, whichever spelling the scanner saw (AN1); the look-ahead that ends a description reads the same table as the keyword lookup and is what the scanner's description state calls (K2p); Description has one consumer (K1). Not decided: the normal form itself, idempotence, agreement of the scanner's delimitation with the re-parse (string semantics).",
 		Trusted:     trustedCommon,
 	})
 	reg("C20", &PropSpec{
-		Rules: []Rule{r("E3i", RuleE3i), r("E3ii", RuleE3ii), r("NI", RuleNI("uniqURLPath", "similarPaths", "onlyOneProtocolIntoURL", "expandingMacros", "processedUserTypes", "processedByAllOf")), r("G2", RuleG2), r("OP1", RuleOP1)},
+		Rules:       []Rule{r("E3i", RuleE3i), r("E3ii", RuleE3ii), r("NI", RuleNI("uniqURLPath", "similarPaths", "onlyOneProtocolIntoURL", "expandingMacros", "processedUserTypes", "processedByAllOf")), r("G2", RuleG2), r("OP1", RuleOP1), r("PA1", RulePA1)},
 		Explanation: "Decided over every run-wide memo and uniqueness set of the core: a cached value depends on nothing its key does not cover (E3i: known finding F11) and a visited set carries no caller-owned accumulator (E3ii: known finding F13); the uniqueness sets are read only by lookups whose outcome is an error return (or, for visited sets, skipping work), so a fresh, non-colliding declaration cannot change another entry through them (NI); no package-level state (G2) and no state shared through option closures (OP1). Not decided: coupling through the schema objects that receive all types and rules (library behaviour); entry-by-entry equality of two catalogs.",
 		Trusted:     trustedCommon,
 	})
